@@ -127,7 +127,10 @@ type NatSock struct {
 	Events  []natEv
 	// fault injection
 	FailWrite func(dst net.Addr, n int) error
-	reg       *NatRegistry
+	// DelayTimeout holds back a read-timeout error for this long (a slow reaper): it widens
+	// the window between "deadline passed" and "association removed".
+	DelayTimeout time.Duration
+	reg          *NatRegistry
 }
 
 func (s *NatSock) ev(e natEv) {
@@ -155,6 +158,10 @@ func (s *NatSock) WriteTo(b []byte, dst net.Addr) (int, error) {
 }
 func (s *NatSock) ReadFrom(b []byte) (int, net.Addr, error) {
 	n, a, err := s.PacketConn.ReadFrom(b)
+	if err != nil && s.DelayTimeout > 0 && isTimeout(err) {
+		s.ev(natEv{Kind: "timeoutHeld"})
+		time.Sleep(s.DelayTimeout)
+	}
 	as := ""
 	if a != nil {
 		as = a.String()
